@@ -180,8 +180,10 @@ def project_facts(files):
                         # skips the class namespace)
                         for sub in ast.walk(st):
                             if isinstance(sub, (ast.Lambda, ast.ListComp, ast.SetComp, ast.DictComp, ast.GeneratorExp)):
-                                class_nested_scope_loads.update(t.id for t in ast.walk(sub)
-                                                                if isinstance(t, ast.Name) and isinstance(t.ctx, ast.Load))
+                                # (the first iterable of a comprehension is evaluated in the class namespace itself)
+                                first_iter = set() if isinstance(sub, ast.Lambda) else {id(t) for t in ast.walk(sub.generators[0].iter)}
+                                class_nested_scope_loads.update(t.id for t in ast.walk(sub) if id(t) not in first_iter
+                                                                and isinstance(t, ast.Name) and isinstance(t.ctx, ast.Load))
                 for st in n.body:
                     if not isinstance(st, (ast.FunctionDef, ast.AsyncFunctionDef, ast.ClassDef)):
                         class_body_loads |= {t.id for t in ast.walk(st) if isinstance(t, ast.Name) and isinstance(t.ctx, ast.Load)}
@@ -302,7 +304,7 @@ def run_case(spec):
     tier = os.environ.get("VERIF_TIER", "quick")
     with core.Scratch() as tmp:
         case = behave.Case(spec["pseed"], "binding", tmp + "/p", p_fstring=0.05, p_star_import=0.03, p_kwonly=0.1,
-                           p_varargs=0.1, p_kwargs=0.05, p_dunder_call=0.3, unique_names=spec.get("unique", 0))
+                           p_varargs=0.1, p_kwargs=0.05, p_dunder_call=0.3, p_class_comp=0.4, p_multi_global=0.5, unique_names=spec.get("unique", 0))
         if not case.valid:
             res.ev("discarded_invalid_projects")
             res.outcome("discarded")
